@@ -20,6 +20,7 @@ import Anko.Props.Tie.ContFlow
 import Anko.Props.Tie.ExprFlow
 import Anko.Props.Tie.ToXFlow
 import Anko.Props.Tie.CallFlow
+import Anko.Props.Tie.Inventory
 
 set_option linter.unusedSectionVars false
 
@@ -151,5 +152,14 @@ theorem source_tie_ExprFlow : Gen.ExprFlow.leaves = Tables.exprFlow := Tie.exprF
 theorem source_tie_ToXFlow : Gen.ToXFlow.leaves = Tables.toXFlow := Tie.toXFlow
 /-- the call machinery (vmExprFunction.go) -/
 theorem source_tie_CallFlow : Gen.CallFlow.leaves = Tables.callFlow := Tie.callFlow
+
+
+/-! ### Declaration inventory
+
+Nothing was added to the packages this property is anchored in: their top-level declarations (functions, methods, variables, constants, types with
+the fields of struct types), regenerated from /repo on this run, are the audited ones (Props/Tie/Inventory). A helper, a package-level table or a
+file added there - code no flow table can pin - breaks the tie by name and makes this property's check search for a failing input. -/
+/-- vm/ -/
+theorem declarations_of_Vm_are_the_audited_ones : Tie.ofPkg "vm" Gen.Inventory.decls = Tie.ofPkg "vm" Tables.inventory := Tie.inventoryVm
 
 end Anko.C20
